@@ -103,3 +103,19 @@ Qed.
 
 Lemma length_chunks c slab from n : length (chunks c slab from n) = n.
 Proof. unfold chunks. rewrite map_length, seq_length. reflexivity. Qed.
+
+Lemma NoDup_app_l (l1 l2 : list Z) : NoDup (l1 ++ l2) -> NoDup l1.
+Proof. rewrite !NoDup_cnt. intros H x. specialize (H x). rewrite cnt_app in H. lia. Qed.
+
+Lemma NoDup_snoc_notin (l : list Z) b : NoDup (l ++ [b]) -> ~ In b l.
+Proof.
+  rewrite NoDup_cnt. intros H Hin. apply cnt_In in Hin. specialize (H b). rewrite cnt_app, cnt_one in H.
+  destruct (Z.eq_dec b b); [lia | contradiction].
+Qed.
+
+Lemma filter_len_ge {A} (f : A -> bool) l t old : nth_error l t = Some old -> b2z (f old) <= Z.of_nat (length (filter f l)).
+Proof.
+  revert t; induction l as [|a l IH]; intros [|t] H; cbn in *; try discriminate.
+  - injection H as ->. destruct (f old); cbn [length b2z]; lia.
+  - specialize (IH _ H). destruct (f a); cbn [length]; lia.
+Qed.
